@@ -213,6 +213,15 @@ Definition chk_sparse (xs u c : list nat) : bool :=
 (* per-segment permutation of two segmented arrays *)
 Definition same_multiset (a b : list nat) : bool :=
   Nat.eqb (List.length a) (List.length b) && forallb (fun v => Nat.eqb (count_occ Nat.eq_dec a v) (count_occ Nat.eq_dec b v)) a.
+(* multisets of pairs: (key, value) bookkeeping for sort_by *)
+Definition pair_eqb (p q : nat * nat) : bool := Nat.eqb (fst p) (fst q) && Nat.eqb (snd p) (snd q).
+Definition count_pair (p : nat * nat) (l : list (nat * nat)) : nat := List.length (List.filter (pair_eqb p) l).
+Definition same_pair_multiset (a b : list (nat * nat)) : bool :=
+  Nat.eqb (List.length a) (List.length b) && forallb (fun p => Nat.eqb (count_pair p a) (count_pair p b)) a.
+(* r = xs permuted by SOME permutation that sorts key: the pairs (sorted key_j, r_j) are the pairs (key_i, xs_i) *)
+Definition chk_sort_by (xs key r : list nat) : bool :=
+  Nat.eqb (List.length xs) (List.length key) && Nat.eqb (List.length r) (List.length xs) &&
+  same_pair_multiset (combine (map (fun i => nth i key 0) (vec_argsort key)) r) (combine key xs).
 Definition icf_perm (c d : icf) : bool :=
   ff_eqb (ic_sources c) (ic_sources d) && Nat.eqb (target (ic_values c)) (target (ic_values d)) &&
   Nat.eqb (List.length (decode_f c)) (List.length (decode_f d)) &&
@@ -475,7 +484,7 @@ Definition spec_case (c impl : sx) : sx :=
             match d_nats xs, d_nats key, d_okv d_nats impl with
             | Some xs', Some k', Some r =>
                 (* some sorting permutation of the keys produces r *)
-                if same_multiset r xs' && Nat.eqb (List.length xs') (List.length k') then ok_v else fail_v "sort_by-contract"
+                if chk_sort_by xs' k' r then ok_v else fail_v "sort_by-contract"
             | _, _, _ => fail_v "sort_by-shape"
             end
         | _ => fail_v "sort_by-shape"
@@ -485,7 +494,9 @@ Definition spec_case (c impl : sx) : sx :=
         | [_; xs; idx; N n] =>
             match d_nats xs, d_nats idx, d_okv d_nats impl with
             | Some xs', Some idx', Some y =>
-                if Nat.eqb (List.length y) n &&
+                (* the contract speaks about accepted calls only: where the model panics, so must the implementation *)
+                if (match d_okv d_nats m with Some _ => true | None => false end) &&
+                   Nat.eqb (List.length y) n &&
                    forallb (fun j => if existsb (Nat.eqb j) idx'
                                      then existsb (fun p => Nat.eqb (fst p) j && Nat.eqb (snd p) (nth j y 0)) (combine idx' xs')
                                      else true) (seq 0 n)
